@@ -128,9 +128,14 @@ def r03_4(ctx):
     subs = [c for c in walk_no_nested(f.node) if is_call_to(c, "substitute")]
     ok = len(subs) == 1 and len(subs[0].args) == 3 and ast.unparse(subs[0].args[1]) == "[self.t]" and isinstance(subs[0].args[2], ast.List) and n.poly(subs[0].args[2].elts[0]) == expected("t0+tau*dt")
     ctx.check(ok, "sys_simulator time substitution", detail="model time is not t0+tau*dt", expected="substitute([ode,alg],[self.t],[t0+tau*dt])", found="; ".join(ast.unparse(c) for c in subs), fi=f)
+    # the dae dictionary: entries of a literal `dae = {...}` and item assignments `dae[key] = value`, later ones overriding earlier ones
     stores = {}
-    for st in walk_no_nested(f.node):
-        if isinstance(st, ast.Assign) and isinstance(st.targets[0], ast.Subscript) and ast.unparse(st.targets[0].value) == "dae" and isinstance(st.targets[0].slice, ast.Constant):
+    for st in sorted([x for x in walk_no_nested(f.node) if isinstance(x, ast.Assign)], key=lambda x: sc.order[x]):
+        if isinstance(st.targets[0], ast.Name) and st.targets[0].id == "dae" and isinstance(st.value, ast.Dict):
+            for k_, v_ in zip(st.value.keys, st.value.values):
+                if isinstance(k_, ast.Constant):
+                    stores[k_.value] = v_
+        if isinstance(st.targets[0], ast.Subscript) and ast.unparse(st.targets[0].value) == "dae" and isinstance(st.targets[0].slice, ast.Constant):
             stores[st.targets[0].slice.value] = st.value
     want = {"x": "self.x", "z": "self.z", "t": "tau", "ode": "dt*ode", "alg": "alg", "p": "vertcat(self.u, t0, dt, p)"}
     for k, text in want.items():
@@ -144,7 +149,8 @@ def r03_4(ctx):
     if ok:
         kw = {k.arg: k.value for k in calls[0].keywords}
         pk = n.key(kw["p"])
-        same = "p" in stores and (pk == n.key(stores["p"]) or pk == "dae['p']")
+        direct = isinstance(kw["p"], ast.Subscript) and ast.unparse(kw["p"].value) == "dae" and isinstance(kw["p"].slice, ast.Constant) and kw["p"].slice.value == "p"
+        same = "p" in stores and (pk == n.key(stores["p"]) or pk == "dae['p']" or direct)
         ok = ast.unparse(kw["x0"]) == "self.x" and same
         # the algebraic guess offered in the signature must reach the integrator
         _c, _ins, _outs, _ni, _no = AL.function_ctor(f)
